@@ -424,7 +424,7 @@ def run(ctx):
             traces.append(run_history({"default": 2, "size": size}, h))
     ctx.exhaustive = True
     nexh = len(traces)
-    for i in range(ctx.pick(800, 40000)):
+    for i in range(ctx.pick(800, 15000)):
         cfg = {"default": rng.randint(1, 5), "size": rng.choice([NONE, 0, 1, 2, 3, 5, 8])}
         # one-shot (self-removing) observers in one history out of five
         traces.append(run_history(cfg, random_history(rng, rng.randint(10, 60), rmself=(i % 5 == 0)), ctor=rng.randint(0, 3)))
